@@ -174,6 +174,12 @@ class Convert(Component):
             if bad:
                 ctx.violation(site + ",kind=non-string-element",
                               "%s: %s holds non-string element %r" % (what, where, bad[0]))
+            if numeric and pd.api.types.is_numeric_dtype(series.dtype):
+                # a converted column is a string column (object or pandas string dtype), also
+                # when it holds no present value at all: the joins reject numeric columns
+                ctx.violation(site + ",kind=result-still-numeric",
+                              "%s: %s has dtype %s after the conversion" % (what, where,
+                                                                           series.dtype))
             if got != exp:
                 diff = [(i, g, e_) for i, (g, e_) in enumerate(zip(got, exp)) if g != e_][:4]
                 ctx.violation(site + ",kind=wrong-elements",
